@@ -1,11 +1,13 @@
 """C01 — class reader fidelity: constants, decode tables, pass agreement, coverage, attribute dispatch, flag and tag tables."""
+import re
+
 from lib import hir as H
 from lib import tables as T
 from rules import duke_common as D
 
 
 # rules of sibling properties that decide code on this property's own call path: the tree builder (anchor of C01) must store each delivered group where the replay and the writer expect it
-PREMISES = [("C17", ["R17.4"]), ("C02", ["R02.1:attr-source"])]
+PREMISES = [("C17", ["R17.4", "R17.7"]), ("C02", ["R02.1:attr-source"])]
 
 def run(F, R, tier):
     S = D.spec()
@@ -19,10 +21,14 @@ def run(F, R, tier):
     r01_11(duke, R, S)
     r01_12(duke, R, S)
     r01_13(duke, R)
+    r01_14(duke, R)
+    r01_15(duke, R)
     r01_9(F, R)
     return ("A5 tables against JVMS: class_constants (opcodes, pool tags, handle kinds, atype, attribute names, magic); the second-pass decode table for "
             "all 256 opcode bytes and all 256 wide sub-opcodes (variant, implied index, operand bytes, operand kinds) and its agreement with the "
-            "label-creating first pass; switch shapes; PoolRead::read tag->layout->variant->slots and as_X destructuring, method-handle kind table; "
+            "label-creating first pass; switch shapes; PoolRead::read tag->layout->variant->slots, the accessor x entry-kind table of PoolRead (evaluated), "
+            "method-handle kind table; every resolved pool value depends on every payload field of its entry (R01.14); branch-target arithmetic of the "
+            "narrow and wide offset helpers at boundary probes (R01.15); "
             "A9 coverage (no parsed table is dropped, every visitor method is called); attribute dispatch per location; the nine access-flag "
             "tables; verification-type, frame-type, element-value, target-type, type-path and alignment tables")
 
@@ -206,8 +212,10 @@ def r01_2_3(duke, R, S):
 # ------------------------------------------------------------------------------------ R01.5
 def r01_5(duke, R, S):
     R.rule("R01.5", "PoolRead::read: tag -> PoolEntry variant with the JVMS payload layout, Long/Double occupy two slots (placeholder pushed), "
-                    "unknown tags fail; every PoolEntry::as_X destructures variant X; as_method_handle maps the 9 reference kinds to the Handle "
-                    "variant and the right member-reference kind; loadable / constant-value admit exactly the JVMS entry kinds")
+                    "unknown tags fail; each accessor of PoolRead (get_utf8 .. get_invoke_dynamic), evaluated once per PoolEntry variant with "
+                    "the private functions of the pool module followed, resolves every entry kind the JVMS allows at its use sites (the "
+                    "loadable / constant-value accessors map kind X to variant X, the MethodRef-or-InterfaceMethodRef accessor reports which "
+                    "of the two it was); the reference_kind match maps the 9 kinds to the Handle variant and the right member-reference kind")
     rd = duke.fn("read", impl_ty="class_reader::pool::PoolRead")
     if R.anchor("R01.5", "fn PoolRead::read", rd):
         ms = D.int_matches(rd["body"], 10)
@@ -247,54 +255,720 @@ def r01_5(duke, R, S):
                        expect=S["pool_layout"][name], got=[r[2] for r in reads] + (["read_u8_vec"] if has_bytes else []))
                 R.inst("R01.5", "pool-slots:%s" % name, placeholders == (1 if name in S["pool_two_slots"] else 0), sp=arm["sp"],
                        expect=2 if name in S["pool_two_slots"] else 1, got=1 + placeholders)
-    # as_X destructuring
-    want = {"as_utf8": "Utf8", "as_string": "String", "as_class": "Class", "as_obj_class": "Class", "as_name_and_type": "NameAndType", "as_field_ref": "FieldRef",
-            "as_method_ref": "MethodRef", "as_interface_method_ref": "InterfaceMethodRef", "as_package": "Package", "as_module": "Module", "as_integer": "Integer",
-            "as_long": "Long", "as_float": "Float", "as_double": "Double", "as_method_handle": "MethodHandle", "as_method_type": "MethodType",
-            "as_dynamic": "Dynamic", "as_invoke_dynamic": "InvokeDynamic"}
-    for fn, var in want.items():
-        b = duke.fn(fn, impl_ty="class_reader::pool::PoolEntry")
-        if not R.anchor("R01.5", "fn PoolEntry::" + fn, b):
+    # accessor x entry-kind decision table (shape-independent: let-else, match, match with a flag parameter, merged/split private helpers)
+    r01_5_accessors(duke, R)
+    mhs = [(b, m) for b in duke.bodies if b["key"].startswith(POOLMOD) and b.get("dk") in ("Fn", "AssocFn") and isinstance(b.get("body"), dict)
+           for m in D.int_matches(b["body"], 5)
+           if any(H.ctor_of(x) and (H.ctor_of(x)[0] or "").endswith("code::Handle") for a in m["arms"] for x in H.walk(a["body"]))]
+    if R.anchor("R01.5", "reference_kind match building Handle variants in the pool module", len(mhs) == 1):
+        mh, mhm = mhs[0]
+        kind_name = {v: k for k, v in S["method_handle_kinds"].items()}
+        getter_kind = {"get_field_ref": "Fieldref", "get_method_ref": "Methodref", "get_interface_method_ref": "InterfaceMethodref",
+                       "get_method_ref_or_interface_method_ref": "Methodref|InterfaceMethodref"}
+        for kind in range(0, 12):
+            res, ev = D.eval_arm(mhm, kind)
+            arm = D.arm_for(mhm, kind)
+            if kind not in kind_name:
+                R.inst("R01.5", "handle-kind:%d=invalid" % kind, res[0] == "err", sp=arm["sp"], nontrivial=kind in (0, 10))
+                continue
+            R.inst("R01.5", "handle-kind:%d:%s" % (kind, kind_name[kind]), _variant_key(res) == kind_name[kind].lower(), sp=arm["sp"], expect=kind_name[kind], got=T.show(res)[:50])
+            getters = [getter_kind[H.callee_name(x)] for k, x in ev.effects if k == "callnode" and H.callee_name(x) in getter_kind]
+            R.inst("R01.5", "handle-target:%d" % kind, getters == [S["method_handle_target"][str(kind)]], sp=arm["sp"], expect=S["method_handle_target"][str(kind)], got=getters)
+    R.floor("R01.5", 17 * 3 + 15 + 24 + 2 + 18)
+
+
+POOLMOD = "duke::class_reader::pool::"
+_LOADABLE = {"Integer", "Float", "Long", "Double", "Class", "String", "MethodHandle", "MethodType", "Dynamic"}
+# oracle (JVMS 4.4 + what each accessor is used for in the reader, see D.POOL_KIND): accessor of PoolRead -> CONSTANT_ kinds it may resolve
+POOL_ACCESSOR_KINDS = {
+    "get_utf8": {"Utf8"}, "get_utf8_ref": {"Utf8"}, "get_class": {"Class"}, "get_obj_class": {"Class"}, "get_package": {"Package"},
+    "get_module": {"Module"}, "get_field_name_and_type": {"NameAndType"}, "get_method_name_and_type": {"NameAndType"},
+    "get_field_ref": {"FieldRef"}, "get_method_ref": {"MethodRef"}, "get_interface_method_ref": {"InterfaceMethodRef"},
+    "get_method_ref_or_interface_method_ref": {"MethodRef", "InterfaceMethodRef"},
+    "get_integer": {"Integer"}, "get_integer_as_byte": {"Integer"}, "get_integer_as_char": {"Integer"}, "get_integer_as_short": {"Integer"},
+    "get_integer_as_boolean": {"Integer"}, "get_double": {"Double"}, "get_float": {"Float"}, "get_long": {"Long"},
+    "get_loadable": _LOADABLE, "get_loadable_nested": _LOADABLE, "get_constant_value": {"Integer", "Float", "Long", "Double", "String"},
+    "get_method_handle": {"MethodHandle"}, "get_invoke_dynamic": {"InvokeDynamic"},
+}
+# accessors whose result is an enum with one variant per accepted entry kind: PoolEntry::X -> <enum>::X
+POOL_ACCESSOR_SAME_VARIANT = ("get_loadable", "get_loadable_nested", "get_constant_value")
+
+
+def pool_accessor_table(duke):
+    """{accessor name: (body, {PoolEntry variant: abstract result}, reached)} for every method `(&self, index: u16, ..)` of PoolRead.
+    The accessor is partially evaluated once per PoolEntry variant with the entry lookup (the method of PoolRead returning
+    Result<&PoolEntry>) answering that variant for the accessor's own index; all functions of the pool module are followed, so it does not
+    matter how the variant test is spelled (let-else, match, match with guards on a flag parameter) or in which private helper it lives.
+    None when the lookup cannot be identified."""
+    adt = duke.adts.get(POOLMOD + "PoolEntry")
+    if not adt:
+        return None
+    variants = [(v["name"], [f["name"] for f in v["fields"]]) for v in adt["variants"]]
+    pr = [b for b in duke.bodies if (b.get("impl_ty") or "") == POOLMOD + "PoolRead" and b.get("dk") == "AssocFn"]
+    lookup = [b for b in pr if re.match(r"^(core::result::)?Result<&('\w+ )?(duke::class_reader::pool::)?PoolEntry\b", b.get("output") or "")]
+    if len(lookup) != 1:
+        return None
+    inline = {b["key"]: b for b in duke.bodies if b["key"].startswith(POOLMOD) and b.get("dk") in ("Fn", "AssocFn") and b is not lookup[0]
+              and isinstance(b.get("body"), dict)}
+    MARK = ("i", 51966)
+    out = {}
+    for g in pr:
+        if g is lookup[0] or len(g.get("inputs") or []) < 2 or g["inputs"][1] != "u16":
             continue
-        lets = [n for n in H.walk(b["body"]) if n.get("k") == "let" and "els" in n and H.pat_variant(n["pat"]) and (H.pat_variant(n["pat"])[0] or "").endswith("PoolEntry")]
-        got = [H.pat_variant(n["pat"])[1] for n in lets]
-        R.inst("R01.5", "destructure:%s" % fn, got[:1] == [var] and H.diverges(lets[0]["els"]) if lets else False, sp=b["sp"], expect=var, got=got)
-    # set-valued accessors
-    for fn, allowed in (("as_loadable", {"Integer", "Float", "Long", "Double", "Class", "String", "MethodHandle", "MethodType", "Dynamic"}),
-                        ("as_constant_value", {"Integer", "Float", "Long", "Double", "String"}),
-                        ("as_method_ref_or_interface_method_ref", {"MethodRef", "InterfaceMethodRef"})):
-        b = duke.fn(fn, impl_ty="class_reader::pool::PoolEntry")
-        if not R.anchor("R01.5", "fn PoolEntry::" + fn, b):
+        row = {}
+        reached = [False]
+        for vn, fs in variants:
+            entry = ("st", vn, {f: T.sym("entry." + f) for f in fs})
+
+            def get(args, entry=entry):
+                if len(args) == 2 and args[1] == MARK:
+                    reached[0] = True
+                    return T.V("Ok", entry)
+                return T.V("Ok", T.sym("other-entry"))      # an entry another index refers to: not the one under test
+
+            def passthrough(args):
+                return args[0]
+
+            def then(args):
+                a = args[0]
+                if a[0] == "err" or (a[0] == "v" and a[1] in ("Err", "None")):
+                    return a
+                return None
+            ev = T.Evaluator(calls={lookup[0]["path"]: get, "with_context": passthrough, "context": passthrough, "map_err": passthrough,
+                                    "and_then": then, "map": then}, inline=inline, max_inline=8)
+            try:
+                row[vn] = ev.run_fn(g, [T.sym("pool"), MARK] + [T.sym("arg%d" % i) for i in range(2, len(g["params"]))])
+            except Exception as e:          # a shape the evaluator cannot follow: visible (fail closed), not a crash
+                row[vn] = T.sym("?" + type(e).__name__)
+        out[g["name"]] = (g, row, reached[0])
+    return out
+
+
+def _outcome(v):
+    if v[0] == "err" or (v[0] == "v" and v[1] in ("Err",)):
+        return "rejected"
+    if v[0] == "v" and v[1] == "Ok":
+        return "accepted"
+    if v[0] == "v" and v[1] == "if":
+        return "undecided"
+    # a symbolic result of the accessor's tail (`.try_into()`, `.and_then(..)` of values that were produced): the entry was accepted
+    return "accepted" if v[0] == "sym" and not v[1].startswith(("?", "match ", "if let", "<no arm>")) else "undecided"
+
+
+def r01_5_accessors(duke, R):
+    tab = pool_accessor_table(duke)
+    if not R.anchor("R01.5", "enum PoolEntry and the entry lookup of PoolRead (-> Result<&PoolEntry>)", tab is not None):
+        return
+    external = set()
+    for b in duke.bodies:
+        if b["key"].startswith(POOLMOD) or not isinstance(b.get("body"), dict):
             continue
-        ms = [n for n in H.walk(b["body"]) if n.get("k") == "match"]
-        acc = {}
-        if ms:
-            for a in ms[0]["arms"]:
-                for alt in H.pat_alternatives(a["pat"]):
-                    v = H.pat_variant(alt)
-                    if v and not H.diverges(a["body"]):
-                        out = [H.ctor_of(x)[1] for x in H.walk(a["body"]) if H.ctor_of(x) and (H.ctor_of(x)[0] or "").endswith(("Loadable", "ConstantValue"))]
-                        acc[v[1]] = out[0] if out else None
-        R.inst("R01.5", "accepted-kinds:%s" % fn, set(acc) == allowed, sp=b["sp"], expect=sorted(allowed), got=sorted(acc))
-        if fn != "as_method_ref_or_interface_method_ref":
-            R.inst("R01.5", "kind->variant:%s" % fn, all(k == v for k, v in acc.items()), sp=b["sp"], got=acc, expect="PoolEntry::X -> X")
-    mh = duke.fn("as_method_handle", impl_ty="class_reader::pool::PoolEntry")
-    if mh:
-        ms = D.int_matches(mh["body"], 5)
-        if R.anchor("R01.5", "kind match in as_method_handle", len(ms) == 1, sp=mh["sp"]):
-            kind_name = {v: k for k, v in S["method_handle_kinds"].items()}
-            getter_kind = {"get_field_ref": "Fieldref", "get_method_ref": "Methodref", "get_interface_method_ref": "InterfaceMethodref",
-                           "get_method_ref_or_interface_method_ref": "Methodref|InterfaceMethodref"}
-            for kind in range(0, 12):
-                res, ev = D.eval_arm(ms[0], kind)
-                arm = D.arm_for(ms[0], kind)
-                if kind not in kind_name:
-                    R.inst("R01.5", "handle-kind:%d=invalid" % kind, res[0] == "err", sp=arm["sp"], nontrivial=kind in (0, 10))
+        for n in H.walk(b["body"]):
+            if n.get("k") in ("call", "mcall"):
+                c = n.get("callee") or {}
+                if (c.get("impl_ty") or "") == POOLMOD + "PoolRead" or (c.get("path") or "").startswith(POOLMOD + "PoolRead::"):
+                    external.add(H.callee_name(n))
+    for name in sorted(tab):
+        g, row, reached = tab[name]
+        if not reached:
+            continue        # does not look an entry up under its own index (get_optional, read)
+        want = POOL_ACCESSOR_KINDS.get(name)
+        if want is None:
+            if name in external:
+                # an accessor the oracle table does not know (added by a later change): nothing to compare with; what it accepts is listed
+                R.inst("R01.5", "accepts:%s" % name, True, sp=g["sp"], nontrivial=False,
+                       got=sorted(vn for vn, v in row.items() if _outcome(v) == "accepted"), detail="no row in the accessor/kind table: not decided")
+            continue        # a private helper: decided through the accessors that call it
+        oc = {vn: _outcome(v) for vn, v in row.items()}
+        und = sorted(vn for vn, o in oc.items() if o == "undecided")
+        if und:
+            R.unrecognised("R01.5", "accepts:%s" % name, "cannot decide whether the accessor accepts entry kind(s) %s: %s"
+                           % (",".join(und), T.show(row[und[0]])[:100]), g["sp"])
+            continue
+        got = {vn for vn, o in oc.items() if o == "accepted"}
+        # necessary for well-formed class files: every kind the JVMS allows at the use sites of this accessor is resolved (what else is
+        # accepted only matters for malformed files, about which this property says nothing)
+        R.inst("R01.5", "accepts:%s" % name, want <= got, sp=g["sp"], expect=sorted(want), got=sorted(got),
+               detail="the accessor must resolve every CONSTANT_ kind the JVMS allows where it is used; an entry of such a kind that is "
+                      "rejected (or looked for under another variant) makes the reader fail on a well-formed class")
+        if "bool" in (g.get("output") or "") and want == {"MethodRef", "InterfaceMethodRef"}:
+            # (MethodRef, is_interface): the flag is a fact of the class file (JVMS 4.4.2 / 4.4.8: which of the two kinds the handle refers to)
+            flags = {}
+            for vn in sorted(want & got):
+                v = row[vn]
+                inner = v[2][0] if v[0] == "v" and v[1] == "Ok" and v[2] else None
+                last = inner[1][-1] if inner and inner[0] == "t" and inner[1] else None
+                flags[vn] = last[1] if last and last[0] == "b" else None
+            if any(x is None for x in flags.values()):
+                R.unrecognised("R01.5", "is-interface-flag:%s" % name, "cannot evaluate the bool returned next to the method reference: %s"
+                               % {k: T.show(row[k])[:60] for k in flags}, g["sp"])
+            else:
+                R.inst("R01.5", "is-interface-flag:%s" % name, flags == {"MethodRef": False, "InterfaceMethodRef": True}, sp=g["sp"],
+                       expect={"MethodRef": False, "InterfaceMethodRef": True}, got=flags)
+        if name in POOL_ACCESSOR_SAME_VARIANT:
+            m = {}
+            for vn in sorted(got):
+                v = row[vn]
+                inner = v[2][0] if v[0] == "v" and v[1] == "Ok" and v[2] else None
+                m[vn] = inner[1] if inner and inner[0] in ("v", "st") else None
+            R.inst("R01.5", "kind->variant:%s" % name, all(k == v for k, v in m.items()), sp=g["sp"], got=m, expect="PoolEntry::X -> X")
+    for name in sorted(external):
+        if name in POOL_ACCESSOR_KINDS:
+            R.anchor("R01.5", "accessor PoolRead::%s evaluates (looks an entry up under its own index)" % name, name in tab and tab[name][2])
+
+
+# ------------------------------------------------------------------------------------ R01.14
+class EntryDeps:
+    """Which payload fields of the destructured pool entry (and which parameters) the successful results of a function can depend on.
+    Plain syntactic data + control dependence over the typed HIR, over-approximated everywhere (mutation through method calls on owned /
+    `&mut` locals, closures, loops, assignments are all taken as flows), with one exception that is the point of the rule: what is read out
+    of a shared-reference parameter (`pool: &PoolRead`, `bootstrap_methods: &Option<..>`) depends on the entry only through the key /
+    index expressions used for that read.  Tokens: ("self",) the entry as a whole, ("f", Variant, field), ("p", i) parameter i."""
+
+    def __init__(self, duke, entry_adt, summaries=None, stack=()):
+        self.duke = duke
+        self.entry_adt = entry_adt
+        self.summaries = summaries if summaries is not None else {}
+        self.stack = stack
+        self.incomplete = False     # a callee could not be summarised because of the recursion guard
+        self.self_ids = set()
+
+    # ---- patterns over the entry
+    def variant_fields(self, pat, out, depth=0):
+        """out: list of (Variant, {field: [binding ids]}, {fields tested by a refutable sub-pattern}, [ids bound to the whole entry])"""
+        p = pat
+        whole = []
+        while p.get("k") in ("pref", "pbox", "pderef") or (p.get("k") == "bind" and "sub" in p):
+            if p.get("k") == "bind":
+                whole.append(p["id"])
+                p = p["sub"]
+            else:
+                p = p["pat"]
+        k = p.get("k")
+        if k == "por":
+            for alt in p["pats"]:
+                self.variant_fields(alt, out, depth + 1)
+            for o in out:
+                o[3].extend(whole)
+            return
+        if k == "bind":
+            out.append((None, {}, set(), whole + [p["id"]]))
+            return
+        if k in ("pstruct", "ptuplestruct") and (p["res"].get("adt") or "") == self.entry_adt and p["res"].get("variant"):
+            flds = {}
+            tested = set()
+            items = [(f["name"], f["pat"]) for f in p["fields"]] if k == "pstruct" else [(str(i), x) for i, x in enumerate(p["pats"])]
+            for nm, fp in items:
+                ids = [i for i, _ in H.pat_bindings(fp)]
+                if ids:
+                    flds[nm] = ids
+                if H.pat_peel(fp).get("k") not in ("wild", "bind") or (H.pat_peel(fp).get("k") == "bind" and "sub" in H.pat_peel(fp)):
+                    tested.add(nm)
+            out.append((p["res"]["variant"], flds, tested, whole))
+            return
+        if whole:
+            out.append((None, {}, set(), whole))
+
+    # ---- one function
+    def analyse(self, b):
+        """-> (exits [(leaf node, token set)], sites [(construct kind, node, arm index|None, [(Variant, ..)])]) ; None if the body has no shape
+        we can walk."""
+        root = b.get("body")
+        if not isinstance(root, dict):
+            return None
+        self.root = root
+        self_ids = self.self_ids = set()
+        dep = {}
+        for i, prm in enumerate(b["params"]):
+            for lid, nm in H.pat_bindings(prm):
+                dep[lid] = {("p", i)}
+                if i == 0 and nm == "self":
+                    self_ids.add(lid)
+                    dep[lid] = {("self",), ("p", 0)}
+        self.shared_params = set()
+        for prm, ty in zip(b["params"], b.get("inputs") or []):
+            if (ty or "").startswith("&") and not (ty or "").startswith("&mut") and not re.match(r"^&('\w+ )?mut ", ty or ""):
+                self.shared_params |= {lid for lid, _ in H.pat_bindings(prm)}
+        self.dep = dep
+        self.skip = set()          # ids of `self` path nodes that are the scrutinee of a destructuring (a variant test, not a use of the payload)
+
+        def is_self(e):
+            if e is None:
+                return None
+            e0 = H.peel(e, refs=True, derefs=True)
+            l = H.local_of(e0)
+            return e0 if l and l[0] in self_ids and e0.get("k") == "path" else None
+        sites = []
+        binders = []        # (pattern, source expr) for every other binding construct
+        for n, parents in H.walk_with_parents(root):
+            k = n.get("k")
+            if k in ("let", "letexpr") and "init" in n:
+                s0 = is_self(n["init"])
+                vf = []
+                if s0 is not None:
+                    self.variant_fields(n["pat"], vf)
+                if s0 is not None and any(v[0] for v in vf):
+                    self.skip.add(id(s0))
+                    sites.append((k, n, None, vf))
+                else:
+                    binders.append((n["pat"], [n["init"]]))
+            elif k == "match":
+                s0 = is_self(n["scrut"])
+                vfs = []
+                if s0 is not None:
+                    for a in n["arms"]:
+                        vf = []
+                        self.variant_fields(a["pat"], vf)
+                        vfs.append(vf)
+                if s0 is not None and any(v[0] for vf in vfs for v in vf):
+                    self.skip.add(id(s0))
+                    for ai, vf in enumerate(vfs):
+                        sites.append(("arm", n, ai, vf))
+                else:
+                    for a in n["arms"]:
+                        binders.append((a["pat"], [n["scrut"]]))
+            elif k == "for":
+                binders.append((n["pat"], [n["iter"]]))
+            elif k == "closure":
+                par = parents[-1] if parents else None
+                while par is not None and par.get("k") in ("ref", "block") and parents.index(par) > 0:
+                    par = parents[parents.index(par) - 1]
+                src = []
+                if par is not None and par.get("k") in ("mcall", "call"):
+                    src = ([par["recv"]] if par.get("k") == "mcall" else []) + [a for a in par["args"] if H.peel(a) is not n]
+                for cp in n["params"]:
+                    binders.append((cp, src))
+        for _k, _n, _ai, vf in sites:
+            for V, flds, _tested, whole in vf:
+                for fname, ids in flds.items():
+                    for lid in ids:
+                        dep.setdefault(lid, set()).add(("f", V, fname))
+                        dep[lid].add(("p", 0))
+                for lid in whole:
+                    dep.setdefault(lid, set()).update({("self",), ("p", 0)})
+        # ---- fixed point over bindings, assignments and (possible) mutation through calls
+        changed = True
+        rounds = 0
+        while changed and rounds < 30:
+            changed = False
+            rounds += 1
+
+            def add(lid, toks):
+                nonlocal changed
+                if lid in self.shared_params:
+                    return
+                cur = dep.setdefault(lid, set())
+                if not toks <= cur:
+                    cur |= toks
+                    changed = True
+            for pat, srcs in binders:
+                toks = set()
+                for e in srcs:
+                    toks |= self.deps(e)
+                for lid, _ in H.pat_bindings(pat):
+                    add(lid, toks)
+            for n in H.walk(root):
+                k = n.get("k")
+                if k in ("assign", "assignop"):
+                    l = H.recv_root(n["l"]) or H.local_of(H.peel(n["l"]))
+                    if l:
+                        add(l[0], self.deps(n["r"]) | self.control(n))
+                elif k == "mcall" and n["args"]:
+                    rty = (n["recv"].get("ty") or "")
+                    if rty.startswith("&") and not rty.startswith("&mut"):
+                        continue
+                    l = H.recv_root(n["recv"])
+                    if l:
+                        toks = set()
+                        for a in n["args"]:
+                            toks |= self.deps(a)
+                        add(l[0], toks | self.control(n))
+                elif k == "call":
+                    muts = [H.local_of(H.peel(a)) for a in n["args"] if a.get("k") == "ref" and a.get("mut")]
+                    if any(muts):
+                        toks = set()
+                        for a in n["args"]:
+                            toks |= self.deps(a)
+                        for l in muts:
+                            if l:
+                                add(l[0], toks | self.control(n))
+        # ---- successful exits
+        exits = []
+        for leaf in self.success_leaves(root):
+            exits.append((leaf, self.deps(leaf) | self.control(leaf)))
+        return exits, sites
+
+    def control(self, node):
+        toks = set()
+        for kind, cn, extra in H.path_conditions(self.root, node, skip_error_exits=True):
+            if kind in ("if", "after-exit"):
+                toks |= self.deps(cn)
+            elif kind == "iflet":
+                toks |= self.deps(cn["init"])
+            elif kind == "letelse":
+                if "init" in cn:
+                    toks |= self.deps(cn["init"])
+            elif kind == "arm":
+                toks |= self.deps(cn["scrut"])
+                for a in cn["arms"][:extra + 1]:
+                    if "guard" in a and not any(x is node for x in H.walk(a["guard"])):
+                        toks |= self.deps(a["guard"])
+                    vf = []
+                    if id(H.peel(cn["scrut"], refs=True, derefs=True)) in self.skip:
+                        self.variant_fields(a["pat"], vf)
+                        for V, _f, tested, _w in vf:
+                            toks |= {("f", V, t) for t in tested}
+        return toks
+
+    def deps(self, e):
+        toks = set()
+        stack = [e]
+        while stack:
+            n = stack.pop()
+            if not isinstance(n, dict):
+                continue
+            if n.get("ty") == "!" or n.get("k") == "ret":
+                continue        # a diverging sub-expression (bail!, return) contributes no value
+            k = n.get("k")
+            if k == "path":
+                r = n["res"]
+                if r.get("r") == "local" and id(n) not in self.skip:
+                    toks |= self.dep.get(r["id"], set())
+                continue
+            if k in ("call", "mcall"):
+                c = n.get("callee") or {}
+                summ = self.summary(c.get("inst_key") or c.get("key"))
+                if summ is not None:
+                    args = ([n["recv"]] if k == "mcall" else []) + list(n["args"])
+                    a0 = H.peel(args[0], refs=True, derefs=True) if args else None
+                    entry_passed_on = (c.get("impl_ty") or "") == self.entry_adt and a0 is not None and a0.get("k") == "path" \
+                        and a0["res"].get("r") == "local" and a0["res"]["id"] in self.self_ids
+                    for t in summ:
+                        if t[0] == "p":
+                            if t[1] == 0 and entry_passed_on:
+                                toks.add(("p", 0))
+                            elif t[1] < len(args):
+                                stack.append(args[t[1]])
+                        elif entry_passed_on:
+                            toks.add(t)         # the callee works on this very entry: its field-level dependence is ours
+                    if "f" in n:
+                        stack.append(n["f"])
                     continue
-                R.inst("R01.5", "handle-kind:%d:%s" % (kind, kind_name[kind]), _variant_key(res) == kind_name[kind].lower(), sp=arm["sp"], expect=kind_name[kind], got=T.show(res)[:50])
-                getters = [getter_kind[H.callee_name(x)] for k, x in ev.effects if k == "callnode" and H.callee_name(x) in getter_kind]
-                R.inst("R01.5", "handle-target:%d" % kind, getters == [S["method_handle_target"][str(kind)]], sp=arm["sp"], expect=S["method_handle_target"][str(kind)], got=getters)
-    R.floor("R01.5", 17 * 3 + 15 + 18 + 18 + 3)
+            stack.extend(H.children(n))
+        return toks
+
+    def summary(self, key):
+        """Tokens the successful result of the pool-module function `key` can depend on, in terms of its own parameters (and, for a method
+        of the entry, of the entry's fields); None = unknown (every argument counts)."""
+        if not key or not key.startswith(POOLMOD):
+            return None
+        if key in self.summaries:
+            return self.summaries[key]
+        if key in self.stack or len(self.stack) > 6:
+            self.incomplete = True
+            return None
+        g = self.duke.by_key.get(key)
+        if g is None or not isinstance(g.get("body"), dict) or g.get("dk") not in ("Fn", "AssocFn"):
+            self.summaries[key] = None
+            return None
+        sub = EntryDeps(self.duke, self.entry_adt, self.summaries, self.stack + (key,))
+        try:
+            res = sub.analyse(g)
+        except RecursionError:
+            res = None
+        if sub.incomplete:
+            self.incomplete = True
+        if not res or not res[0]:
+            if not sub.incomplete:
+                self.summaries[key] = None
+            return None
+        out = set()
+        for _leaf, toks in res[0]:
+            out |= toks
+        if sub.incomplete:
+            return out | {("p", i) for i in range(len(g["params"]))}      # cut by the recursion guard somewhere below: not memoised
+        self.summaries[key] = out
+        return out
+
+    @staticmethod
+    def success_leaves(root):
+        return D.success_leaves(root)
+
+
+def _in_scope(root, site, leaf):
+    """Is the successful exit `leaf` reached only with the entry destructured at `site` = (kind, node, arm index, ..)?  `let` (with or
+    without else): every later statement of its block; `if let`: the then-branch; match arm: the arm body, and - when the arm completes
+    normally - everything after the statement that contains the match."""
+    kind, node, ai, _vf = site
+    chain = (H.parents_of(root, leaf) or []) + [leaf]
+
+    def after_stmt(stmt_pred):
+        for p in chain:
+            if p.get("k") == "block":
+                items = p["stmts"] + ([p["tail"]] if "tail" in p else [])
+                si = next((j for j, x in enumerate(items) if stmt_pred(x)), None)
+                li = next((j for j, x in enumerate(items) if any(x is y for y in chain)), None)
+                if si is not None and li is not None and li > si:
+                    return True
+        return False
+    if kind == "let":
+        return after_stmt(lambda x: x is node)
+    if kind == "letexpr":
+        for p in chain:
+            if p.get("k") == "if" and H.peel(p["cond"], refs=False) is node:
+                return any(x is p["then"] for x in chain)
+        return False
+    arm = node["arms"][ai]
+    if any(x is arm["body"] for x in chain):
+        return True
+    if any(x is node for x in chain):
+        return False
+    if H.diverges(arm["body"]):
+        return False
+    return after_stmt(lambda x: any(y is node for y in H.walk(x)))
+
+
+def r01_14(duke, R):
+    R.rule("R01.14", "lazy pool resolution is a function of the entry: in every method of PoolEntry that an accessor of PoolRead hands the "
+                     "looked-up entry to, each successfully returned value for an entry of variant V depends (data or control dependence; "
+                     "private functions of the pool module are followed, a method called on the same entry contributes its own field-level "
+                     "dependence) on every payload field of V - a result that ignores a field (e.g. one taken from a memo table keyed by "
+                     "only part of the entry) reports the facts of a different constant-pool entry")
+    entry_adt = POOLMOD + "PoolEntry"
+    adt = duke.adts.get(entry_adt)
+    if not R.anchor("R01.14", "enum PoolEntry", adt):
+        return
+    fields_of = {v["name"]: [f["name"] for f in v["fields"]] for v in adt["variants"]}
+    # resolvers: inherent methods of the entry called (outside closures and error exits) from an inherent `(&self, index: u16, ..)` method of PoolRead
+    resolvers = {}
+    for a in duke.bodies:
+        if (a.get("impl_ty") or "") != POOLMOD + "PoolRead" or a.get("impl_trait") or a.get("dk") != "AssocFn" or not isinstance(a.get("body"), dict):
+            continue
+        if len(a.get("inputs") or []) < 2 or a["inputs"][1] != "u16":
+            continue
+        stack = [a["body"]]
+        while stack:
+            n = stack.pop()
+            if not isinstance(n, dict) or n.get("k") in ("closure", "ret") or n.get("ty") == "!":
+                continue
+            if n.get("k") in ("call", "mcall"):
+                c = n.get("callee") or {}
+                g = duke.by_key.get(c.get("inst_key") or c.get("key"))
+                if g is not None and (g.get("impl_ty") or "") == entry_adt and not g.get("impl_trait") and isinstance(g.get("body"), dict):
+                    resolvers[g["key"]] = g
+            stack.extend(H.children(n))
+    if not R.anchor("R01.14", "methods of PoolEntry called by the accessors of PoolRead", len(resolvers) >= 8):
+        return
+    # ... and the methods those call on the same entry to obtain a resolved value (as_loadable -> as_string / as_method_type / as_dynamic):
+    # their exits are judged one by one as well. A helper that merely projects raw payload (result built from integers / bools only) is
+    # not a resolver: what it returns is composed into its caller's dependence instead.
+    raw_only = re.compile(r"^(core::result::Result<|core::option::Option<|\(|\)|,|\s|>|anyhow::Error|bool|[iu](8|16|32|64|128|size))*$")
+    work = list(resolvers.values())
+    while work:
+        h = work.pop()
+        self_ids = {i for i, nm in H.pat_bindings(h["params"][0])} if h["params"] else set()
+        stack = [h["body"]]
+        while stack:
+            n = stack.pop()
+            if not isinstance(n, dict) or n.get("k") in ("closure", "ret") or n.get("ty") == "!":
+                continue
+            if n.get("k") == "mcall":
+                c = n.get("callee") or {}
+                g = duke.by_key.get(c.get("inst_key") or c.get("key"))
+                r0 = H.peel(n["recv"], refs=True, derefs=True)
+                if g is not None and g["key"] not in resolvers and (g.get("impl_ty") or "") == entry_adt and not g.get("impl_trait") \
+                        and isinstance(g.get("body"), dict) and H.local_of(r0) and H.local_of(r0)[0] in self_ids \
+                        and not raw_only.match(g.get("output") or ""):
+                    resolvers[g["key"]] = g
+                    work.append(g)
+            stack.extend(H.children(n))
+    verdict = {}        # (Variant, field) -> [(function name, exit) where a success path ignores it]
+    summaries = {}
+    n_fn = 0
+    for key in sorted(resolvers):
+        b = resolvers[key]
+        an = EntryDeps(duke, entry_adt, summaries, (b["key"],))
+        try:
+            res = an.analyse(b)
+        except RecursionError:
+            res = None
+        if res is None:
+            R.unrecognised("R01.14", "fn:%s" % b["name"], "cannot analyse the body", b["sp"])
+            continue
+        exits, sites = res
+        if not any(v[0] for s_ in sites for v in s_[3]):
+            continue
+        n_fn += 1
+        for site in sites:
+            for V, _flds, _tested, _whole in site[3]:
+                if not V:
+                    continue
+                for f in fields_of.get(V, []):
+                    verdict.setdefault((V, f), [])
+                for leaf, toks in exits:
+                    if ("self",) in toks or not _in_scope(b["body"], site, leaf):
+                        continue
+                    for f in fields_of.get(V, []):
+                        if ("f", V, f) not in toks:
+                            verdict[(V, f)].append((b["name"], leaf))
+    for (V, f), bad in sorted(verdict.items()):
+        R.inst("R01.14", "entry-use:%s.%s" % (V, f) + ("" if not bad else "=ignored-on-a-success-path"), not bad,
+               sp=bad[0][1].get("sp") if bad else adt.get("sp"),
+               expect="every value returned for a %s entry depends on its %s" % (V, f),
+               got=None if not bad else ["%s: `%s`" % (fn, H.render(leaf)[:80]) for fn, leaf in bad][:4],
+               detail="two entries that differ only in this field would be resolved to the same value")
+    R.inst("R01.14", "entry-methods-analysed", n_fn >= 8, got=n_fn, nontrivial=False)
+    R.floor("R01.14", 20)
+
+
+# ------------------------------------------------------------------------------------ R01.15
+INT_RANGE = {"u8": (0, 0xff), "u16": (0, 0xffff), "u32": (0, 0xffffffff), "u64": (0, 2 ** 64 - 1), "usize": (0, 2 ** 64 - 1), "u128": (0, 2 ** 128 - 1),
+             "i8": (-0x80, 0x7f), "i16": (-0x8000, 0x7fff), "i32": (-2 ** 31, 2 ** 31 - 1), "i64": (-2 ** 63, 2 ** 63 - 1),
+             "isize": (-2 ** 63, 2 ** 63 - 1), "i128": (-2 ** 127, 2 ** 127 - 1)}
+
+
+def _int_ty(ty):
+    ty = (ty or "").strip()
+    while ty.startswith("&"):
+        ty = ty[1:].lstrip()
+        if ty.startswith("mut "):
+            ty = ty[4:]
+    return ty if ty in INT_RANGE else None
+
+
+def _result_int_ty(ty):
+    m = re.match(r"^(?:core::result::Result|core::option::Option)<([iu](?:8|16|32|64|128|size))\b", ty or "")
+    return m.group(1) if m else None
+
+
+class IntEvaluator(T.Evaluator):
+    """Partial evaluator with the integer semantics of Rust for concrete operands: `as` casts wrap to the target type, the checked_* /
+    wrapping_* / try_from / try_into / from / into family works on the ranges of the operand types, `+ - *` outside the type's range is
+    an overflow (reported as a symbol, never a silently wrong number), Option <-> Result adaptors (`context`, `ok_or`, `ok`) pass the
+    payload on."""
+
+    def ev(self, n, env):
+        k = n.get("k")
+        if k == "cast":
+            v = self.ev(n["e"], env)
+            t = _int_ty(n.get("ty"))
+            if v[0] == "i" and t:
+                lo, hi = INT_RANGE[t]
+                span = hi - lo + 1
+                return ("i", (v[1] - lo) % span + lo)
+            return v
+        if k == "bin" and n["op"] in ("+", "-", "*"):
+            v = T.Evaluator.ev(self, n, env)
+            t = _int_ty(n.get("ty"))
+            if v[0] == "i" and t and not (INT_RANGE[t][0] <= v[1] <= INT_RANGE[t][1]):
+                return T.sym("<overflow of %s>" % t)
+            return v
+        return T.Evaluator.ev(self, n, env)
+
+    def call(self, n, c, args, env):
+        name = H.callee_name(n)
+        k = n.get("k")
+        a0 = args[0] if args else None
+        conc = lambda x: x is not None and x[0] == "i"
+        recv_ty = _int_ty((n.get("recv") or {}).get("ty")) if k == "mcall" else None
+        if name in ("checked_add_signed", "checked_add", "checked_sub", "checked_add_unsigned", "checked_sub_unsigned", "checked_mul") and recv_ty \
+                and len(args) == 2 and conc(a0) and conc(args[1]):
+            v = a0[1] - args[1][1] if "sub" in name else a0[1] * args[1][1] if "mul" in name else a0[1] + args[1][1]
+            lo, hi = INT_RANGE[recv_ty]
+            return T.V("Some", ("i", v)) if lo <= v <= hi else T.V("None")
+        if name in ("wrapping_add", "wrapping_sub", "wrapping_add_signed", "saturating_add", "saturating_sub", "saturating_add_signed") and recv_ty \
+                and len(args) == 2 and conc(a0) and conc(args[1]):
+            v = a0[1] - args[1][1] if "sub" in name else a0[1] + args[1][1]
+            lo, hi = INT_RANGE[recv_ty]
+            if name.startswith("wrapping"):
+                return ("i", (v - lo) % (hi - lo + 1) + lo)
+            return ("i", min(max(v, lo), hi))
+        if name in ("try_into", "try_from") and len(args) == 1 and conc(a0):
+            t = _result_int_ty(n.get("ty"))
+            if t:
+                lo, hi = INT_RANGE[t]
+                return T.V("Ok", a0) if lo <= a0[1] <= hi else T.V("Err", T.sym("TryFromIntError"))
+        if name in ("from", "into") and len(args) == 1 and conc(a0) and _int_ty(n.get("ty")):
+            return a0
+        if name in ("context", "with_context", "ok_or", "ok_or_else", "map_err") and args:
+            if a0[0] == "v" and a0[1] == "Some":
+                return T.V("Ok", *a0[2])
+            if a0[0] == "v" and a0[1] == "None":
+                return T.V("Err", T.sym("context"))
+            if a0[0] == "err" or (a0[0] == "v" and a0[1] in ("Ok", "Err")):
+                return a0
+        if name in ("map", "and_then") and len(args) == 2 and a0[0] == "v" and a0[1] in ("Some", "Ok", "None", "Err") and args[1][0] == "closure":
+            if a0[1] in ("None", "Err"):
+                return a0
+            cn, cenv = args[1][1], dict(args[1][2])
+            if len(cn["params"]) == 1 and len(a0[2]) == 1 and T.match_pat(cn["params"][0], a0[2][0], cenv) is True:
+                try:
+                    r = self.ev(cn["body"], cenv)
+                except T.Return as ret:
+                    r = ret.v
+                return T.V(a0[1], r) if name == "map" else r
+        if name == "ok" and len(args) == 1 and a0[0] == "v" and a0[1] in ("Ok", "Err"):
+            return T.V("Some", *a0[2]) if a0[1] == "Ok" else T.V("None")
+        if name in ("unsigned_abs", "abs") and len(args) == 1 and conc(a0):
+            return ("i", abs(a0[1]))
+        if name in ("is_negative", "is_positive") and len(args) == 1 and conc(a0):
+            return ("b", a0[1] < 0 if name == "is_negative" else a0[1] > 0)
+        return T.Evaluator.call(self, n, c, args, env)
+
+
+BRANCH_PROBES = {
+    # offset width -> [(opcode position, branch offset)]; a method is at most 65535 bytes long (JVMS 4.7.3), so every sum in 0..=65535 is a
+    # possible target and the offset of a wide branch ranges over -65535..=65535.  Only sums inside 0..=65535 are probed: what happens
+    # for a sum outside concerns malformed class files, about which this property says nothing.
+    "i16": [(7, 3), (3, -3), (0, 32767), (32768, 32767), (40000, -32768), (65535, -32768), (65535, 0), (0, 0)],
+    "i32": [(7, 3), (3, -3), (0, 32767), (40000, -32768), (0, 32768), (0, 40000), (0, 65535), (40000, -32769), (65535, -65535),
+            (60000, -40000), (65535, 0), (0, 0)],
+}
+
+
+def r01_15(duke, R):
+    R.rule("R01.15", "branch targets: each helper of the class reader that turns a signed branch offset read from the stream (i16: if*/goto/jsr; "
+                     "i32: goto_w/jsr_w and the tableswitch/lookupswitch targets) plus the opcode position (u16) into a target offset returns "
+                     "exactly position + offset whenever that sum lies in 0..=65535 - for the 32 bit form over the whole offset range "
+                     "-65535..=65535, which is what the wide forms exist for (evaluated at boundary probes)")
+    helpers = []
+    for b in duke.bodies:
+        if not b["path"].startswith("duke::class_reader::") or b.get("dk") not in ("Fn", "AssocFn") or not isinstance(b.get("body"), dict):
+            continue
+        if len(b.get("inputs") or []) != 2 or b["inputs"][1] != "u16" or _result_int_ty(b.get("output")) != "u16":
+            continue
+        ids = [i for i, _ in H.pat_bindings(b["params"][0])]
+        reads = [x["name"] for x in H.walk(b["body"], into_closures=False) if x.get("k") == "mcall" and x["name"] in ("read_i16", "read_i32", "read_u16", "read_u32")
+                 and H.local_of(x["recv"]) and H.local_of(x["recv"])[0] in ids]
+        if len(reads) == 1:
+            helpers.append((b, "i" + reads[0][len("read_") + 1:]))     # an offset read unsigned and reinterpreted (`read_u16()? as i16`) is the same
+    widths = sorted(w for _b, w in helpers)
+    if not R.anchor("R01.15", "the branch-target helpers of class_reader ((stream, opcode_pos: u16) -> Result<u16>, one reading i16, one i32)",
+                    widths == ["i16", "i32"]):
+        return
+    inl = D.helper_inline(duke)
+    for b, w in helpers:
+        for pos, off in BRANCH_PROBES[w]:
+            bits = int(w[1:])
+            ev = IntEvaluator(calls={"read_" + w: (lambda args, off=off: T.V("Ok", ("i", off))),
+                                     "read_u" + w[1:]: (lambda args, off=off, bits=bits: T.V("Ok", ("i", off % (1 << bits))))}, inline=inl, max_inline=3)
+            try:
+                res = ev.run_fn(b, [T.sym("stream"), ("i", pos)])
+            except Exception as e:
+                res = T.sym("?" + type(e).__name__)
+            want = pos + off
+            if res[0] == "err" or (res[0] == "v" and res[1] == "Err"):
+                got = "error"
+            elif res[0] == "v" and res[1] == "Ok" and res[2] and res[2][0][0] == "i":
+                got = res[2][0][1]
+            else:
+                R.unrecognised("R01.15", "branch-target:%s:pos=%d,offset=%d" % (w, pos, off),
+                               "cannot evaluate the helper at this probe: %s" % T.show(res)[:120], b["sp"])
+                continue
+            R.inst("R01.15", "branch-target:%s:pos=%d,offset=%d" % (w, pos, off), got == want, sp=b["sp"], expect=want, got=got,
+                   detail="target = opcode position + offset; every sum in 0..=65535 is a possible instruction offset of a method "
+                          "(code_length <= 65535)")
+    R.floor("R01.15", 18)
 
 
 # ------------------------------------------------------------------------------------ R01.6
